@@ -111,3 +111,18 @@ package internal
 //@   requires c.Config.Linear.Steps != nil ==> forall k :: k in c.Config.Linear.Steps ==> fin(c.Config.Linear.Steps[k]) && 0.0 <= c.Config.Linear.Steps[k] && c.Config.Linear.Steps[k] <= 255.0 && -1000000 <= k && k <= 1000000
 //@   requires c.Config.Linear.Steps == nil ==> c.Config.Linear.Min < c.Config.Linear.Max && -1000000 <= c.Config.Linear.Min && c.Config.Linear.Max <= 1000000
 //@   modifies anything
+
+// ---- start-up: one control loop object per fan (C04) ---------------------------------------------------------------
+// The loops are stateful (integral, last error, last time), so two fans must never share one. fanMap has struct keys and is
+// not modelled: the range sees arbitrary (configuration, fan) pairs, which is all this clause needs.
+//@ ghost var loopsGiven gset[int]
+//@ func initializeFanControllers
+//@   params (pers, fanMap)
+//@   props C04
+//@   safety none
+//@   requires forall x int :: x in loopsGiven ==> x < W
+//@   atcall[C04.ownloop] NewFanController: controlLoop != nil ==> !(controlLoop in loopsGiven)
+//@   atcall ghost NewFanController: loopsGiven := loopsGiven[controlLoop := true]
+//@   modifies anything
+//@   loop 1 "for config, fan := range fanMap"
+//@     invariant forall x int :: x in loopsGiven ==> x < W
